@@ -284,6 +284,18 @@ func runC02(c *Ctx) {
 			}
 		}
 		mrtd, kind := pickMeas(r, listed)
+		if ram != 0 && r.Intn(6) == 0 {
+			// a value the endorsement lists, but for another RAM size
+			var others [][]byte
+			for _, m := range tdx.GetMeasurements() {
+				if m.RamGib != uint32(ram) && !contains(listed, m.Mrtd) {
+					others = append(others, m.Mrtd)
+				}
+			}
+			if len(others) > 0 {
+				mrtd, kind = others[r.Intn(len(others))], "other-size"
+			}
+		}
 		if len(mrtd) != 48 {
 			mrtd = measPool(8)
 		}
@@ -295,7 +307,26 @@ func runC02(c *Ctx) {
 		// allow-lists the presented MRTD (e.g. a policy generated for an older firmware fed back with
 		// --overwrite), or lists something else
 		var tbase *tcpb.Policy
-		switch r.Intn(6) {
+		switch r.Intn(9) {
+		case 4, 5:
+			// a base list that CONTAINS everything endorsed for the named size plus the presented value (one-bit
+			// neighbour, another size's MRTD, …): keeping such a list instead of refusing or replacing it would
+			// admit the extra value
+			var l [][]byte
+			for _, m := range listed {
+				l = append(l, append([]byte(nil), m...))
+			}
+			l = append(l, append([]byte(nil), mrtd...))
+			tbase = &tcpb.Policy{TdQuoteBodyPolicy: &tcpb.TDQuoteBodyPolicy{AnyMrTd: l}}
+		case 6:
+			// the output of `tdx policy` for every size fed back as base while one size is named
+			var l [][]byte
+			for _, m := range tdx.GetMeasurements() {
+				l = append(l, append([]byte(nil), m.Mrtd...))
+			}
+			if len(l) > 0 {
+				tbase = &tcpb.Policy{TdQuoteBodyPolicy: &tcpb.TDQuoteBodyPolicy{AnyMrTd: l}}
+			}
 		case 0:
 			tbase = &tcpb.Policy{}
 		case 1:
